@@ -343,6 +343,21 @@ func (e *Engine) durationArg(v Value, what string) int64 {
 
 func registerTimeIntrinsics() {
 	I := intrinsics
+	// context.WithValue: real semantics minus the reflect-based comparability check
+	I["context.WithValue"] = func(e *Engine, g *Goroutine, a []Value, fn *ssa.Function, c *ssa.Call) (Value, bool) {
+		if a[0].(Iface).T == nil {
+			e.goPanic(g, "cannot create context from nil parent")
+			return Iface{}, true
+		}
+		if a[1].(Iface).T == nil {
+			e.goPanic(g, "nil key")
+			return Iface{}, true
+		}
+		vt := e.prog.ImportedPackage("context").Type("valueCtx").Type()
+		o := e.newObject(0, "valueCtx")
+		o.Cells = []Value{a[0], a[1], a[2]}
+		return Iface{T: types.NewPointer(vt), V: Ptr{Obj: o}}, true
+	}
 	I["time.Now"] = func(e *Engine, g *Goroutine, a []Value, fn *ssa.Function, c *ssa.Call) (Value, bool) {
 		return e.timeValue(e.p.sched.now), true
 	}
